@@ -387,4 +387,120 @@ theorem positionAt_progress_err_float32 (path : List (Pos Float32)) (lengths : L
   exact ⟨h0, h1, positionAt_dist_on_polyline_float32 path lengths _ a b hlen hs hbd ha hb
     (FMO.le_trans _ _ _ ha0 h0) h1 hfin⟩
 
+/-! ## non-vacuity: the closed three-vertex curve `(100,200) → (107,224) → (100,200)`, lengths `[0, 25, 50]`, kernel-evaluated -/
+
+section Examples
+open Rosu.C16
+
+/-- the demo curve. -/
+def demoPath : List (Pos Float32) := [demoPP, demoPE, demoPP]
+def demoLens : List Float := [0, 25, 50]
+
+theorem three_cases {α : Type} {a b c x : α} {i : Nat} (h : [a, b, c][i]? = some x) :
+    (i = 0 ∧ x = a) ∨ (i = 1 ∧ x = b) ∨ (i = 2 ∧ x = c) := by
+  match i, h with
+  | 0, h => simp at h; exact Or.inl ⟨rfl, h.symm⟩
+  | 1, h => simp at h; exact Or.inr (Or.inl ⟨rfl, h.symm⟩)
+  | 2, h => simp at h; exact Or.inr (Or.inr ⟨rfl, h.symm⟩)
+  | n + 3, h => simp at h
+
+theorem demo_sorted : Sorted demoLens := by
+  refine sorted_of_adjacent _ ?_ ?_
+  · intro i x hx
+    rcases three_cases hx with ⟨_, rfl⟩ | ⟨_, rfl⟩ | ⟨_, rfl⟩ <;> decide +kernel
+  · intro i x y hx hy
+    rcases three_cases hx with ⟨rfl, rfl⟩ | ⟨rfl, rfl⟩ | ⟨rfl, rfl⟩ <;>
+      rcases three_cases hy with ⟨h, rfl⟩ | ⟨h, rfl⟩ | ⟨h, rfl⟩ <;> first | omega | decide +kernel
+
+theorem demo_bounded : ∀ p ∈ demoPath, Bounded19 p := by
+  intro p hp
+  simp only [demoPath, List.mem_cons, List.not_mem_nil, or_false] at hp
+  rcases hp with rfl | rfl | rfl
+  · exact demo_b0
+  · exact demo_b1
+  · exact demo_b0
+
+/-- the search itself, evaluated: `d = 10 ↦ 1`, `d = 30 ↦ 2`; ties: a hit `d = 25 ↦ 1`, `d = 0 ↦ 0`, `d = 50 ↦ 2`; out of
+range: `−1 ↦ 0`, `99 ↦ 3`; with a repeated length the LAST index holding `d` is returned (`[0, 25, 25, 50]`, `25 ↦ 2`), and
+`−0` hits `+0`. -/
+theorem demo_idx : idxOfDist demoLens 10 = 1 ∧ idxOfDist demoLens 30 = 2 ∧ idxOfDist demoLens 25 = 1 ∧
+    idxOfDist demoLens 0 = 0 ∧ idxOfDist demoLens 50 = 2 ∧ idxOfDist demoLens (-1) = 0 ∧ idxOfDist demoLens 99 = 3 ∧
+    idxOfDist [(0 : Float), 25, 25, 50] 25 = 2 ∧ idxOfDist demoLens (-0.0) = 0 := by decide +kernel
+
+/-- `idxOfDist_bracket_float` on the demo, `d = 10`: the bracket is `0 < 10 < 25`, strict on both sides. -/
+example : Scalar.lt (0 : Float) 10 = true ∧ Scalar.lt (10 : Float) 25 = true := by
+  obtain ⟨_, d1, hd1, _, _, _, hpos⟩ :=
+    idxOfDist_bracket_float demoLens demo_sorted 10 0 50 rfl rfl (by decide +kernel) (by decide +kernel)
+  rw [demo_idx.1] at hd1 hpos
+  obtain ⟨d0, hd0, _, h⟩ := hpos (by omega)
+  cases hd1; cases hd0
+  rcases h with h | h
+  · exact h
+  · exact absurd h (by decide +kernel)
+
+/-- the no-overflow hypothesis on the demo, `d = 10` (segment 1) and `d = 30` (segment 2). -/
+theorem demo_fin10 : SegFinite demoPP demoPE 10 0 25 := by
+  obtain ⟨bx, bY⟩ := demo_interp_bits
+  exact ⟨by rw [bx]; decide +kernel, by rw [bY]; decide +kernel, by decide +kernel, by decide +kernel⟩
+
+theorem demo_interp_bits30 : (interpPos demoPE demoPP (30 : Float) 25 50).x = Float32.ofBits 0x42D33333 ∧
+    (interpPos demoPE demoPP (30 : Float) 25 50).y = Float32.ofBits 0x435B3333 := by decide +kernel
+
+theorem demo_fin30 : SegFinite demoPE demoPP 30 25 50 := by
+  obtain ⟨bx, bY⟩ := demo_interp_bits30
+  exact ⟨by rw [bx]; decide +kernel, by rw [bY]; decide +kernel, by decide +kernel, by decide +kernel⟩
+
+/-- **every hypothesis of `positionAt_dist_err_float32` holds on the demo curve at `d = 10`**, and the THIRD alternative
+(a genuinely interpolated position, with the error bound) is the one that holds. -/
+example : ∃ p, interpolateVertices demoPath demoLens (idxOfDist demoLens 10) 10 = .ok p ∧
+    p = interpPos demoPP demoPE 10 0 25 ∧
+    |toRat32 p.x - (toRat32 demoPP.x + (toRat (10 : Float) - toRat (0 : Float)) / (toRat (25 : Float) - toRat (0 : Float)) *
+      (toRat32 demoPE.x - toRat32 demoPP.x))| ≤ interpBound := by
+  obtain ⟨p, he, h | h | h⟩ := positionAt_dist_err_float32 demoPath demoLens 10 0 50 rfl demo_sorted demo_bounded rfl rfl
+    (by decide +kernel) (by decide +kernel) (by
+      intro p0 p1 d0 d1 h0 h1 h2 h3 _
+      rw [demo_idx.1] at h0 h1 h2 h3
+      cases h0; cases h1; cases h2; cases h3
+      exact demo_fin10)
+  · rw [demo_idx.1] at h; omega
+  · obtain ⟨_, _, d0, d1, h2, h3, hdeg⟩ := h
+    rw [demo_idx.1] at h2 h3
+    cases h2; cases h3
+    exact absurd hdeg (by decide +kernel)
+  · obtain ⟨_, p0, p1, d0, d1, h0, h1, h2, h3, _, _, _, hp, _, hx, _⟩ := h
+    rw [demo_idx.1] at h0 h1 h2 h3
+    cases h0; cases h1; cases h2; cases h3
+    exact ⟨p, he, hp, hx⟩
+
+/-- … and at `d = 30` (second segment, `(107,224) → (100,200)`, `w = 5/25`): within `1/4` px of the polyline. -/
+example : ∃ (p : Pos Float32) (k : Nat) (p0 p1 : Pos Float32) (w : ℚ),
+    interpolateVertices demoPath demoLens (idxOfDist demoLens 30) 30 = .ok p ∧
+    demoPath[k]? = some p0 ∧ (demoPath[k + 1]? = some p1 ∨ p1 = p0) ∧ 0 ≤ w ∧ w ≤ 1 ∧
+    |toRat32 p.x - (toRat32 p0.x + w * (toRat32 p1.x - toRat32 p0.x))| < 1 / 4 ∧
+    |toRat32 p.y - (toRat32 p0.y + w * (toRat32 p1.y - toRat32 p0.y))| < 1 / 4 :=
+  positionAt_dist_on_polyline_float32 demoPath demoLens 30 0 50 rfl demo_sorted demo_bounded rfl rfl
+    (by decide +kernel) (by decide +kernel) (by
+      intro p0 p1 d0 d1 h0 h1 h2 h3 _
+      rw [demo_idx.2.1] at h0 h1 h2 h3
+      cases h0; cases h1; cases h2; cases h3
+      exact demo_fin30)
+
+theorem demo_progress : progressToDist demoLens 0.2 = 10 := by decide +kernel
+
+/-- `positionAt_progress_err_float32` on the demo curve at progress `0.2` (`d = 0.2 · 50 = 10`). -/
+example : ∃ (p : Pos Float32) (k : Nat) (p0 p1 : Pos Float32) (w : ℚ),
+    positionAt demoPath demoLens 0.2 = .ok p ∧
+    demoPath[k]? = some p0 ∧ (demoPath[k + 1]? = some p1 ∨ p1 = p0) ∧ 0 ≤ w ∧ w ≤ 1 ∧
+    |toRat32 p.x - (toRat32 p0.x + w * (toRat32 p1.x - toRat32 p0.x))| < 1 / 4 ∧
+    |toRat32 p.y - (toRat32 p0.y + w * (toRat32 p1.y - toRat32 p0.y))| < 1 / 4 :=
+  (positionAt_progress_err_float32 demoPath demoLens 0.2 0 50 (by decide +kernel) rfl demo_sorted demo_bounded rfl rfl
+    (by decide +kernel) (by decide +kernel) (by decide +kernel) (by
+      intro p0 p1 d0 d1 h0 h1 h2 h3 _
+      rw [demo_progress, demo_idx.1] at h0 h1 h2 h3
+      rw [demo_progress]
+      cases h0; cases h1; cases h2; cases h3
+      exact demo_fin10)).2.2
+
+end Examples
+
 end Rosu.C19
